@@ -133,4 +133,14 @@ TEXTS = {
   "note": "Not decided: HTTP-level behaviour (redirects, proxies, connection reuse) and the netrc library's own matching.",
   "technique": "who-may-reference + SSA value provenance + use-site classification of a parameter",
  },
+ "C12": {
+  "text": "Decides structural necessary conditions of the type filter: inclusionModeExcluded may be stored only for the descriptor being processed or one of its own children (type-switch "
+          "bindings and range values over its Get*() lists), never for an element obtained through the name index — this re-derives the RPC request type being excluded in place of "
+          "the method (recorded as a known finding: an existing test pins the error message the repair changes); a map field written only by append must not have a reader that "
+          "turns absence into an error (re-derived and repaired: `missing <file>` for type-less files); type switches over the eight asserted namedDescriptor kinds and switches "
+          "over FieldDescriptorProto_Type are total or have a non-silent default; the 26 source-path tag constants equal the protobuf field numbers read from descriptorpb's struct "
+          "tags; descriptor field stores in the rewriter target values cloned in the same function.",
+  "note": "Not decided: that the filtered image links, is minimal and idempotent; map-entry/Any reachability; correctness of the closure's mode escalation. Determinism of the closure loops is decided under C02.",
+  "technique": "origin classification of map keys + writer/reader belief contradiction + table agreement with generated struct tags",
+ },
 }
